@@ -65,7 +65,7 @@ PROPS = {
         'C04_check on (inline, parameterized) observation pairs and on substitution pairs.',
         ['oracle fact: ParseFloat rejects a text starting with a quote']),
     'C05': P(
-        ['C05_print_parse_roundtrip', 'C05_value_list'],
+        ['C05_print_parse_roundtrip', 'C05_printed_tree_parses_to_itself', 'C05_value_list'],
         [('corpus', 0), ('trees', 8000)],
         [('corpus', 0), ('trees', 120000), ('enum', 5000)],
         PARSE,
@@ -91,15 +91,15 @@ PROPS = {
         'pairs (all AND written / some AND nodes juxtaposed) of printed random trees, and pairs over arbitrary token sequences with two adjacent terminals; non-trivial = pair accepted',
         '', []),
     'C08': P(
-        ['C08_quoted_value_is_one_token', 'C08_sql_constant_decodes_to_the_value'],
+        ['C08_quoted_value_is_one_token', 'C08_quoted_value_tree', 'C08_quoted_value_inline_sql', 'C08_quoted_value_parameter', 'C08_sql_constant_decodes_to_the_value'],
         [('corpus', 0), ('quote', 6000)],
         [('corpus', 0), ('quote', 100000)],
         PARSE + SQL,
-        'partial: lexer (quoted text is one token carrying the bytes verbatim) and PostgreSQL scanner (constant decodes to the value) halves proved for all byte strings; the composition through parse_literal/Render and the escaping clause are decided by C08_check per case.',
+        'quoting clause proved link by link for all texts w without a double quote: bytes -> tokens (lexer), tokens -> tree (parser loop + Validate: EQUALS(column, literal w)), tree -> inline SQL text (column = constant with doubled quotes) and -> parameter list ([w]), SQL constant -> value (PostgreSQL scanner model reads it back as w). Not proved: that the string-level doubling of Render and the byte-level one of the scanner lemma are the same function (both are checked per case), and the escaping clause, which is decided by C08_check per case (K7).',
         'random texts over an alphabet of operators, keywords, digits, wildcards, slashes, backslashes, whitespace, quotes, non-ASCII; quoted and escaped spellings',
         '', ['oracle facts: double quote, colon and the four whitespace runes are not letters or digits']),
     'C09': P(
-        ['C09_keyword_case', 'C09_redundant_parentheses'],
+        ['C09_keyword_case', 'C09_redundant_parentheses', 'C09_redundant_parentheses_same_parse'],
         [('corpus', 0), ('layout', 1500)],
         [('corpus', 0), ('layout', 30000), ('enum', 5000)],
         PARSE,
